@@ -19,7 +19,7 @@ PROP = {
                   "quaternions and within 6u*sum|terms| on reals; conjugate must negate x,y,z and leave the bits of w alone; +, -, *s, /s, neg are compared per lane with the IEEE primitive on the special-value "
                   "lattice; dot/length/length_recip/normalize within a few u. For unit quaternions q*v (Vec3 and Vec3A operator and method forms) is compared with the vector part of q v q* computed in "
                   "f64 / double-double from the stored components, and |q*v|=|v|, (q*p)*v=q*(p*v), q.inverse()*(q*v)=v, (-q)*v=q*v, Vec3A form = Vec3 form are checked with tolerances "
-                  "accumulated from the same bound. Exploration, not proof.",
+                  "accumulated from the same bound. The same sub-checks also run against the SSE2 build with glam-assert compiled in: the generated inputs satisfy the documented preconditions, so a panic there is a failure. Exploration, not proof.",
     "level_note": "Trusted: rustc's f32/f64/i64 arithmetic, the double-double arithmetic of the harness, proptest. NEON/wasm32 backends cannot be built here.",
     "design_ref": "DESIGN.md section 5 C04",
     "assumptions": [
